@@ -1625,8 +1625,16 @@ def int_sig(c, detail):
 
 # ----------------------------------------------------------------------------------------------- the check
 def proof_stage(ck):
+    # regenerate lean/MpVerif/Gen/SolCheck.lean from the CURRENT tree (clang AST -> Lean); written only if changed
+    gen = os.path.join(LEAN, 'MpVerif', 'Gen', 'SolCheck.lean')
+    rc, out, err = sh([sys.executable, os.path.join(VERIF, 'translators', 'gen_solcheck.py'), REPO, gen, os.path.join(BUILD, 'tr_c07')],
+                      timeout=900)
+    ck.log((out.strip() or err.strip())[-300:])
+    if rc != 0:
+        ck.cov.update({'obligations': EXPECT_THEOREMS, 'discharged': 0, 'checker_cmd': 'translators/gen_solcheck.py failed'})
+        return False, ['translator: ' + (out + err).strip()[-500:]]
     ok, failing = ck.proof_stage('MpVerif.C07.Props', 'MpVerif/C07/Props.lean', 'C07_',
-                                 ['MpVerif/C07/*.lean'], expect_min=EXPECT_THEOREMS)
+                                 ['MpVerif/C07/*.lean', 'MpVerif/Gen/SolCheck.lean'], expect_min=EXPECT_THEOREMS)
     ck.log('proof stage: ok=%s failing=%s' % (ok, failing[:10]))
     if ck.tier == 'thorough' and ok:
         bad = ck.leanchecker(['MpVerif.C07.Props'])
@@ -1636,7 +1644,7 @@ def proof_stage(ck):
     return ok, failing
 
 
-EXPECT_THEOREMS = 33
+EXPECT_THEOREMS = 43
 
 
 def run(ck):
